@@ -106,6 +106,8 @@ void h_core_fsr(void) {
         }
     }
     VG_REACH(core_fsr_returns);
-    if (rc == 0 && len > VG_SPD + 1 && VG_BITS < 8 && ((start * VG_BITS) & 7)) { VG_REACH(core_fsr_unaligned_crossing); }
+#if VG_BITS < 8
+    if (rc == 0 && len > VG_SPD + 1 && ((start * VG_BITS) & 7)) { VG_REACH(core_fsr_unaligned_crossing); }
+#endif
     if (rc == 0 && len > 2 * VG_SPD) { VG_REACH(core_fsr_three_blocks); }
 }
